@@ -1,8 +1,9 @@
 // gen translates a whitelisted set of pure Go functions of yandex/mysync into
 // Lean 4 definitions.  It is deliberately tiny: int/bool expressions, len,
 // builtin min/max, field access on the receiver, calls to other whitelisted
-// methods, `:=`, if/else, switch-on-value, early return, `fmt.Errorf` / nil
-// returns.  Anything else is a loud failure (exit 2), never a skipped
+// methods, `:=`, if/else, switch (on a value or tagless), early return,
+// `fmt.Errorf` / nil returns; helper functions / methods and all-scalar struct
+// types of the same file are translated on demand (helpers tagged @[simp]).  Anything else is a loud failure (exit 2), never a skipped
 // function.
 //
 //	gen -repo /repo -out /verif/lean/MysyncModel/Generated
@@ -11,11 +12,11 @@ package main
 import (
 	"crypto/sha256"
 	"encoding/json"
-	"go/printer"
 	"flag"
 	"fmt"
 	"go/ast"
 	"go/parser"
+	"go/printer"
 	"go/token"
 	"os"
 	"path/filepath"
@@ -47,6 +48,14 @@ type tr struct {
 	lists  map[string]bool   // identifiers that are slices (len allowed)
 	ptrs   map[string]bool   // identifiers that are pointers to the receiver struct
 	errs   []string
+	// on-demand translation of helpers and local struct types of the same file
+	methods  map[string]*ast.FuncDecl   // methods of the unit's receiver type
+	plain    map[string]*ast.FuncDecl   // plain functions of the file
+	structs  map[string]*ast.StructType // struct types of the file
+	recvType string
+	emitted  map[string]bool // Lean names already emitted (or being emitted)
+	defs     []string        // emitted Lean declarations, in dependency order
+	api      map[string]bool // whitelisted function names (emitted under their own name, not @[simp])
 }
 
 func (t *tr) fail(n ast.Node, msg string, args ...any) string {
@@ -67,6 +76,9 @@ func leanType(t *tr, e ast.Expr) string {
 			return "String"
 		case "error":
 			return "Option String"
+		}
+		if st, ok := t.structs[x.Name]; ok && x.Name != t.recvType {
+			t.ensureStruct(x.Name, st)
 		}
 		return x.Name
 	case *ast.ArrayType:
@@ -108,7 +120,29 @@ func (t *tr) expr(e ast.Expr) string {
 		if id, ok := x.X.(*ast.Ident); ok {
 			return id.Name + "." + x.Sel.Name
 		}
+		if _, ok := x.X.(*ast.CallExpr); ok {
+			return "(" + t.expr(x.X) + ")." + x.Sel.Name
+		}
 		return t.fail(e, "unsupported selector")
+	case *ast.CompositeLit:
+		id, ok := x.Type.(*ast.Ident)
+		if !ok {
+			return t.fail(e, "unsupported composite literal")
+		}
+		st, ok := t.structs[id.Name]
+		if !ok {
+			return t.fail(e, "composite literal of unknown type %s", id.Name)
+		}
+		t.ensureStruct(id.Name, st)
+		var fields []string
+		for _, el := range x.Elts {
+			kv, ok := el.(*ast.KeyValueExpr)
+			if !ok {
+				return t.fail(e, "composite literal without field names")
+			}
+			fields = append(fields, kv.Key.(*ast.Ident).Name+" := "+t.expr(kv.Value))
+		}
+		return "({ " + strings.Join(fields, ", ") + " } : " + id.Name + ")"
 	case *ast.UnaryExpr:
 		switch x.Op {
 		case token.NOT:
@@ -165,6 +199,14 @@ func (t *tr) expr(e ast.Expr) string {
 				}
 				return "(" + f.Name + " " + t.expr(x.Args[0]) + " " + t.expr(x.Args[1]) + ")"
 			}
+			if fd, ok := t.plain[f.Name]; ok { // a plain helper function of the same file
+				var args []string
+				for _, a := range x.Args {
+					args = append(args, t.expr(a))
+				}
+				name := t.ensureFunc(fd, false)
+				return "(" + name + " " + strings.Join(args, " ") + ")"
+			}
 		case *ast.SelectorExpr:
 			if id, ok := f.X.(*ast.Ident); ok {
 				if id.Name == "fmt" && f.Sel.Name == "Errorf" {
@@ -172,12 +214,16 @@ func (t *tr) expr(e ast.Expr) string {
 						return "(some " + lit.Value + ")"
 					}
 				}
-				if id.Name == t.recv { // call of another whitelisted method
+				if id.Name == t.recv { // call of another method of the receiver: whitelisted, or a helper translated on demand
 					args := []string{t.recv}
 					for _, a := range x.Args {
 						args = append(args, t.expr(a))
 					}
-					return "(" + f.Sel.Name + " " + strings.Join(args, " ") + ")"
+					name := f.Sel.Name
+					if fd, ok := t.methods[name]; ok && !t.api[name] {
+						name = t.ensureFunc(fd, true)
+					}
+					return "(" + name + " " + strings.Join(args, " ") + ")"
 				}
 			}
 		}
@@ -225,10 +271,13 @@ func (t *tr) stmts(ss []ast.Stmt, depth int) string {
 		}
 		return in + "if " + t.expr(x.Cond) + " then\n" + t.stmts(thenS, depth+1) + "\n" + in + "else\n" + t.stmts(elseS, depth+1)
 	case *ast.SwitchStmt:
-		if x.Init != nil || x.Tag == nil {
+		if x.Init != nil {
 			return t.fail(s, "unsupported switch form")
 		}
-		tag := t.expr(x.Tag)
+		tag := ""
+		if x.Tag != nil {
+			tag = t.expr(x.Tag)
+		}
 		var out strings.Builder
 		var def []ast.Stmt
 		hasDef := false
@@ -242,7 +291,11 @@ func (t *tr) stmts(ss []ast.Stmt, depth int) string {
 			}
 			var conds []string
 			for _, v := range cc.List {
-				conds = append(conds, "("+tag+" == "+t.expr(v)+")")
+				if x.Tag == nil {
+					conds = append(conds, t.expr(v)) // tagless switch: the cases are conditions
+				} else {
+					conds = append(conds, "("+tag+" == "+t.expr(v)+")")
+				}
 			}
 			kw := "else if "
 			if first {
@@ -257,6 +310,75 @@ func (t *tr) stmts(ss []ast.Stmt, depth int) string {
 		return out.String()
 	}
 	return t.fail(s, "unsupported statement %T", s)
+}
+
+// ensureStruct emits a local struct type (once).
+func (t *tr) ensureStruct(name string, st *ast.StructType) {
+	if t.emitted["type:"+name] {
+		return
+	}
+	t.emitted["type:"+name] = true
+	var b strings.Builder
+	fmt.Fprintf(&b, "structure %s where\n", name)
+	for _, fl := range st.Fields.List {
+		for _, n := range fl.Names {
+			fmt.Fprintf(&b, "  %s : %s\n", n.Name, leanType(t, fl.Type))
+		}
+	}
+	b.WriteString("  deriving Repr, DecidableEq\n")
+	t.defs = append(t.defs, b.String())
+}
+
+// leanFuncName: a helper whose name is also a type name of the file gets a suffix.
+func (t *tr) leanFuncName(name string) string {
+	if _, clash := t.structs[name]; clash {
+		return name + "_of"
+	}
+	return name
+}
+
+// ensureFunc translates a function (once) and returns its Lean name.  Helpers (not whitelisted) are tagged @[simp] so that
+// the specification proofs see through them without naming them.
+func (t *tr) ensureFunc(fd *ast.FuncDecl, isMethod bool) string {
+	name := t.leanFuncName(fd.Name.Name)
+	if t.emitted["func:"+name] {
+		return name
+	}
+	t.emitted["func:"+name] = true
+	savedRecv, savedLists := t.recv, t.lists
+	defer func() { t.recv, t.lists = savedRecv, savedLists }()
+	t.lists = map[string]bool{}
+	t.recv = ""
+	var params []string
+	if isMethod && fd.Recv != nil {
+		if len(fd.Recv.List[0].Names) > 0 {
+			t.recv = fd.Recv.List[0].Names[0].Name
+		} else {
+			t.recv = "self"
+		}
+		params = append(params, fmt.Sprintf("(%s : %s)", t.recv, t.recvType))
+	}
+	for _, p := range fd.Type.Params.List {
+		ty := leanType(t, p.Type)
+		for _, n := range p.Names {
+			if _, isArr := p.Type.(*ast.ArrayType); isArr {
+				t.lists[n.Name] = true
+			}
+			params = append(params, fmt.Sprintf("(%s : %s)", n.Name, ty))
+		}
+	}
+	if fd.Type.Results == nil || len(fd.Type.Results.List) != 1 {
+		t.errs = append(t.errs, fmt.Sprintf("%s: need exactly one result", fd.Name.Name))
+		return name
+	}
+	ret := leanType(t, fd.Type.Results.List[0].Type)
+	body := t.stmts(fd.Body.List, 1) // may emit callees first
+	attr := ""
+	if !t.api[fd.Name.Name] {
+		attr = "@[simp] "
+	}
+	t.defs = append(t.defs, fmt.Sprintf("%sdef %s %s : %s :=\n%s\n", attr, name, strings.Join(params, " "), ret, body))
+	return name
 }
 
 func main() {
@@ -284,7 +406,41 @@ func main() {
 			fmt.Fprintln(os.Stderr, "gen:", err)
 			os.Exit(2)
 		}
-		t := &tr{fset: fset, consts: map[string]string{}}
+		t := &tr{fset: fset, consts: map[string]string{}, methods: map[string]*ast.FuncDecl{}, plain: map[string]*ast.FuncDecl{},
+			structs: map[string]*ast.StructType{}, recvType: u.recvType, emitted: map[string]bool{}, api: map[string]bool{}}
+		for _, n := range u.funcs {
+			t.api[n] = true
+		}
+		for _, d := range f.Decls {
+			switch x := d.(type) {
+			case *ast.GenDecl:
+				if x.Tok == token.TYPE {
+					for _, sp := range x.Specs {
+						ts := sp.(*ast.TypeSpec)
+						if st, ok := ts.Type.(*ast.StructType); ok {
+							t.structs[ts.Name.Name] = st
+						}
+					}
+				}
+			case *ast.FuncDecl:
+				if x.Recv == nil {
+					t.plain[x.Name.Name] = x
+				} else if len(x.Recv.List) == 1 {
+					rt := ""
+					switch r := x.Recv.List[0].Type.(type) {
+					case *ast.StarExpr:
+						if id, ok := r.X.(*ast.Ident); ok {
+							rt = id.Name
+						}
+					case *ast.Ident:
+						rt = r.Name
+					}
+					if rt == u.recvType {
+						t.methods[x.Name.Name] = x
+					}
+				}
+			}
+		}
 		// package-level integer constants of this file
 		for _, d := range f.Decls {
 			gd, ok := d.(*ast.GenDecl)
@@ -332,59 +488,22 @@ func main() {
 				bad = true
 			}
 		}
-		decls := map[string]*ast.FuncDecl{}
-		for _, d := range f.Decls {
-			fd, ok := d.(*ast.FuncDecl)
-			if !ok {
-				continue
-			}
-			rt := ""
-			if fd.Recv != nil && len(fd.Recv.List) == 1 {
-				switch r := fd.Recv.List[0].Type.(type) {
-				case *ast.StarExpr:
-					rt = r.X.(*ast.Ident).Name
-				case *ast.Ident:
-					rt = r.Name
-				}
-			}
-			if rt == u.recvType {
-				decls[fd.Name.Name] = fd
-			}
-		}
 		for _, name := range u.funcs {
-			fd, ok := decls[name]
+			fd, ok := t.methods[name]
+			isMethod := true
+			if !ok {
+				fd, ok = t.plain[name]
+				isMethod = false
+			}
 			if !ok {
 				fmt.Fprintf(os.Stderr, "gen: function %s.%s not found in %s\n", u.recvType, name, u.file)
 				bad = true
 				continue
 			}
-			t.lists = map[string]bool{}
-			t.recv = ""
-			var params []string
-			if fd.Recv != nil {
-				if len(fd.Recv.List[0].Names) > 0 {
-					t.recv = fd.Recv.List[0].Names[0].Name
-				} else {
-					t.recv = "self"
-				}
-				params = append(params, fmt.Sprintf("(%s : %s)", t.recv, u.recvType))
-			}
-			for _, p := range fd.Type.Params.List {
-				ty := leanType(t, p.Type)
-				for _, n := range p.Names {
-					if _, isArr := p.Type.(*ast.ArrayType); isArr {
-						t.lists[n.Name] = true
-					}
-					params = append(params, fmt.Sprintf("(%s : %s)", n.Name, ty))
-				}
-			}
-			if fd.Type.Results == nil || len(fd.Type.Results.List) != 1 {
-				fmt.Fprintf(os.Stderr, "gen: %s: need exactly one result\n", name)
-				bad = true
-				continue
-			}
-			ret := leanType(t, fd.Type.Results.List[0].Type)
-			fmt.Fprintf(&b, "def %s %s : %s :=\n%s\n\n", name, strings.Join(params, " "), ret, t.stmts(fd.Body.List, 1))
+			t.ensureFunc(fd, isMethod)
+		}
+		for _, d := range t.defs {
+			b.WriteString(d + "\n")
 		}
 		fmt.Fprintf(&b, "end Gen.%s\n", u.module)
 		if len(t.errs) > 0 {
